@@ -28,6 +28,8 @@
 #include <stddef.h>
 #include <stdlib.h>
 #include <string.h>
+#include <sys/stat.h>
+#include <sys/types.h>
 
 /* ------------------------------------------------------------------------- */
 
@@ -147,6 +149,21 @@ FILE *libconfig_scanctx_next_include_file(struct scan_context *ctx,
     return(NULL);
 
   include_frame->current_stream = fopen(*(include_frame->current_file), "rt");
+  if(include_frame->current_stream)
+  {
+    /* On some operating systems, fopen() succeeds on a directory; reading
+     * from it would make the scanner terminate the process.
+     */
+    struct stat statbuf;
+    int fd = posix_fileno(include_frame->current_stream);
+
+    if((fstat(fd, &statbuf) != 0) || S_ISDIR(statbuf.st_mode))
+    {
+      fclose(include_frame->current_stream);
+      include_frame->current_stream = NULL;
+    }
+  }
+
   if(!include_frame->current_stream)
     *error = err_bad_include;
 
